@@ -105,6 +105,11 @@ def r_accum(prog, tier):
                         why = 'right-hand side adds to the present value of the same slot'
                     elif isinstance(v, ast.Name):
                         ok, why = _local_accumulates(f, v.id, n.id, slot, parent, tgt)
+                        if not ok:
+                            reads = any(isinstance(d_, ast.AST) and (slot in unparse(d_) or '.get(' in unparse(d_))
+                                        for (_, d_) in name_defs(f, v.id))
+                            if reads:
+                                ok = None       # partly derived from the slot: idiom not recognised
                     if not ok and f.fq in FRESH_KEY:
                         ok = True
                         why = 'FRESH-KEY table: ' + FRESH_KEY[f.fq]
@@ -122,9 +127,15 @@ def r_accum(prog, tier):
             if isinstance(sub, ast.Call) and prog.callee(sub, f) == ('grammar', 'binarize_rule'):
                 ncalls += 1
                 g = prog.func('grammar', 'binarize_rule')
-                idx = g.params.index('rule_cnt') if 'rule_cnt' in g.params else 2
-                arg = sub.args[idx] if len(sub.args) > idx else None
-                ok, why = _count_source(f, arg, n.id, G)
+                cp = [p_ for p_ in g.params if 'cnt' in p_ or 'count' in p_]
+                arg = None
+                if cp:
+                    idx = g.params.index(cp[0])
+                    arg = sub.args[idx] if len(sub.args) > idx else next((k.value for k in sub.keywords if k.arg == cp[0]), None)
+                if cp and arg is None:
+                    ok, why = False, 'the call does not pass the rule count at all: binarize_rule falls back to its default'
+                else:
+                    ok, why = _count_source(f, arg, n.id, G)
                 obs.append(Ob('R-ACCUM/HANDOVER', f.fq, 'the count handed to binarize_rule (`%s`) is the rule\'s own '
                               'count from the source grammar' % (unparse(arg) if arg is not None else '?'), ok, why,
                               construct='handover:%d' % ncalls, line=n.lineno))
@@ -143,8 +154,8 @@ def r_accum(prog, tier):
                         and unparse(v.args[0]).startswith(G + '[') and unparse(v.args[0]).endswith('.values()') \
                         and len(n.loops) == 2:
                     found = (n, n.ast.targets[0].id)
-        ok = False
-        why = 'no `count = sum(%s[func][lin].values())` inside the rule loop' % G
+        ok = None
+        why = 'no `count = sum(%s[func][lin].values())` inside the rule loop recognised' % G
         if found:
             n, c = found
             used = False
@@ -154,8 +165,8 @@ def r_accum(prog, tier):
                         if isinstance(sub, ast.Call) and (unparse(sub.func).endswith('.write') or unparse(sub.func) == 'print') \
                                 and c in [x.id for x in ast.walk(sub) if isinstance(x, ast.Name)]:
                             used = True
-            ok = used
-            why = 'writes `%s = %s`' % (c, unparse(n.ast.value)) if ok else 'the summed count is never written'
+            ok = True if used else None
+            why = 'writes `%s = %s`' % (c, unparse(n.ast.value)) if ok else 'use of the summed count not recognised'
         obs.append(Ob('R-ACCUM/PRINT', f.fq, 'the count written for a rule is the sum over its vertical contexts',
                       ok, why, construct='print-count', line=f.node.lineno))
     # ---- extract: one increment per constituent, one lexicon update per token
@@ -173,8 +184,10 @@ def r_accum(prog, tier):
     tree = f.params[0]
     for (lst, what, pol) in ((incs, 'rule count is incremented by 1 exactly once per constituent', True),
                              (upds, 'lexicon count is updated exactly once per token', False)):
-        ok = False
-        why = '%d such statements' % len(lst)
+        ok = None
+        why = '%d statements of the recognised form' % len(lst)
+        if len(lst) > 1:
+            ok, why = False, 'the count is changed at %d places per node' % len(lst)
         if len(lst) == 1:
             n = lst[0]
             outer = [l for l in n.loops]
@@ -190,10 +203,14 @@ def r_accum(prog, tier):
             else:
                 a = n.ast.value.args
                 amount = len(a) == 1 and isinstance(a[0], ast.List) and len(a[0].elts) == 1
-            ok = one_loop and uncond and amount
+            ok = True if (one_loop and uncond and amount) else None
             why = 'single statement `%s`, directly in the loop over preorder(%s), unconditional in the %s branch' \
                   % (unparse(n.ast), tree, 'constituent' if pol else 'token') if ok else \
                   'in node loop only: %s; unconditional in its branch: %s; amount one: %s' % (one_loop, uncond, amount)
+            if ok is None and len(outer) > 1:
+                ok = False      # inside an inner loop: counted once per child / terminal, not once per node
+            elif ok is None and not amount:
+                ok = False
         obs.append(Ob('R-ACCUM/EXTRACT', f.fq, what, ok, why, construct='extract:' + what, line=f.node.lineno))
     # ---- analysis tasks
     obs.extend(_task_rules(prog))
@@ -216,7 +233,9 @@ def _local_accumulates(f, name, at, slot, parent, tgt):
     cfg = f.cfg
     defs = [(n, v) for (n, v) in name_defs(f, name) if n in cfg.coreach(at) or cfg.dominates(n, at)]
     reading = [(n, v) for (n, v) in defs if isinstance(v, ast.AST) and isinstance(v, ast.BinOp)
-               and isinstance(v.op, ast.Add) and slot in unparse(v)]
+               and isinstance(v.op, ast.Add) and slot in unparse(v)] + \
+              [(n, v) for (n, v) in defs if isinstance(v, tuple) and v[0] == 'aug' and isinstance(v[1].op, ast.Add)
+               and slot in unparse(v[1].value)]
     if len(reading) != 1:
         return False, 'the stored local `%s` is not derived from the present value of the slot' % name
     rn, rv = reading[0]
@@ -244,42 +263,79 @@ def _local_accumulates(f, name, at, slot, parent, tgt):
                  'that path' % name
 
 
+def _derived_from(f, name, G, depth=0):
+    """Is local `name` the grammar parameter G, or (by every one of its definitions) an entry of it obtained by
+    iterating / subscripting it?"""
+    if name == G:
+        return True
+    if depth > 4:
+        return False
+    defs = name_defs(f, name)
+    if not defs:
+        return False
+    for (n, v) in defs:
+        ok = False
+        if isinstance(v, tuple) and v[0] == 'iter':
+            base = v[1]
+            if isinstance(base, ast.Call) and isinstance(base.func, ast.Attribute) and base.func.attr in ('items', 'values', 'keys'):
+                base = base.func.value
+            while isinstance(base, ast.Subscript):
+                base = base.value
+            ok = isinstance(base, ast.Name) and base.id != name and _derived_from(f, base.id, G, depth + 1)
+        elif isinstance(v, ast.AST):
+            base = v
+            while isinstance(base, ast.Subscript):
+                base = base.value
+            ok = isinstance(base, ast.Name) and base.id != name and _derived_from(f, base.id, G, depth + 1)
+        if not ok:
+            return False
+    return True
+
+
 def _count_source(f, arg, at, G):
     if not isinstance(arg, ast.Name):
-        return False, 'not a simple local'
+        return None, 'not a simple local'
     cfg = f.cfg
-    defs = [(n, v) for (n, v) in name_defs(f, arg.id)]
     reach = []
-    for (n, v) in defs:
+    for (n, v) in name_defs(f, arg.id):
         if cfg.dominates(n, at) or at in cfg.reach(n):
-            # same loop nest only
             if cfg.nodes[n].loops and cfg.nodes[n].loops[0] != (cfg.nodes[at].loops[0] if cfg.nodes[at].loops else None):
                 continue
             reach.append((n, v))
     if not reach:
-        return False, 'no definition reaches the call'
+        return None, 'no definition reaches the call'
+    verdict = True
+    why = 'every reaching definition reads the count(s) of the rule out of the source grammar `%s`' % G
     for (n, v) in reach:
         if not isinstance(v, ast.AST):
-            return False, 'unmodelled definition of `%s`' % arg.id
-        s = unparse(v)
-        loops = [cfg.nodes[l] for l in cfg.nodes[n].loops]
-        vars_ = []
-        for l in loops:
-            if l.kind == 'iter':
-                vars_.append((unparse(l.ast.target), unparse(l.ast.iter)))
-        ok = False
-        if len(vars_) >= 3 and s == '%s[%s][%s][%s]' % (G, vars_[0][0], vars_[1][0], vars_[2][0]) \
-                and vars_[0][1] == G and vars_[1][1] == '%s[%s]' % (G, vars_[0][0]) \
-                and vars_[2][1] == '%s[%s][%s]' % (G, vars_[0][0], vars_[1][0]):
-            ok = True
-        if len(vars_) >= 2 and s == 'sum(%s[%s][%s].values())' % (G, vars_[0][0], vars_[1][0]) \
-                and vars_[0][1] == G and vars_[1][1] == '%s[%s]' % (G, vars_[0][0]):
-            ok = True
-        if not ok:
-            return False, '`%s = %s` (line %d) is not the count of the rule being binarized in the source ' \
-                          'grammar' % (arg.id, s, cfg.nodes[n].lineno)
-    return True, 'every reaching definition is %s[func][lin][vert] or sum(%s[func][lin].values()) of the loop ' \
-                 'variables' % (G, G)
+            # e.g. bound by `for vert, rule_cnt in G[func][lin].items()`
+            if isinstance(v, tuple) and v[0] == 'iter':
+                src = v[1]
+                if isinstance(src, ast.Call) and isinstance(src.func, ast.Attribute):
+                    src = src.func.value
+                while isinstance(src, ast.Subscript):
+                    src = src.value
+                if isinstance(src, ast.Name) and _derived_from(f, src.id, G):
+                    continue
+                if isinstance(src, ast.Name) and src.id in f.locals:
+                    return False, '`%s` is taken from `%s`, a table rebuilt in this function and not the source grammar: ' \
+                                  'entries that fall together there overwrite each other' % (arg.id, src.id)
+            return None, 'definition of `%s` not recognised' % arg.id
+        e = v
+        if isinstance(e, ast.Call) and isinstance(e.func, ast.Name) and e.func.id == 'sum' and e.args:
+            e = e.args[0]
+            if isinstance(e, ast.Call) and isinstance(e.func, ast.Attribute) and e.func.attr == 'values':
+                e = e.func.value
+        base = e
+        while isinstance(base, ast.Subscript):
+            base = base.value
+        if isinstance(base, ast.Name) and _derived_from(f, base.id, G):
+            continue
+        if isinstance(base, ast.Name) and base.id in f.locals:
+            return False, '`%s = %s` (line %d) reads `%s`, which is not the source grammar: the count handed over is not ' \
+                          'the rule\'s own' % (arg.id, unparse(v), cfg.nodes[n].lineno, base.id)
+        return None, '`%s = %s` not recognised' % (arg.id, unparse(v))
+    return verdict, why
 
 
 def _task_rules(prog):
@@ -332,11 +388,11 @@ def _task_rules(prog):
             if acc[0] == 'aug':
                 amount = isinstance(st.op, ast.Add) and isinstance(st.value, ast.Constant) and st.value.value == 1
             obs.append(Ob('R-ACCUM/TASK', f.fq, 'accumulator `%s` counts each %s exactly once' % (unparse(st), unit),
-                          ok and amount, 'unconditional for every %s, amount one' % unit if ok and amount else
+                          True if (ok and amount) else (None if unit == '?' else False), 'unconditional for every %s, amount one' % unit if ok and amount else
                           'not executed exactly once per %s (or not by one)' % unit,
                           construct='task:' + unparse(st), line=n.lineno))
         if nacc == 0:
-            obs.append(Ob('R-ACCUM/TASK', f.fq, 'task accumulates something per tree', False,
+            obs.append(Ob('R-ACCUM/TASK', f.fq, 'task accumulates something per tree', None,
                           'run() has no accumulating statement', construct='task-none'))
     return obs
 
@@ -609,8 +665,36 @@ def r_inversemap(prog, tier):
             if not use_ok:
                 why += '; but right-hand sides are taken through `%s`: %s, variables renamed through `%s`: %s' \
                        % (A, fa, B, lb)
+    verdict = True if (ok and use_ok) else None
+    if verdict is None:
+        picks, renames = set(), set()
+        for n in walk_own(f.node):
+            if isinstance(n, ast.Subscript) and unparse(n.value).startswith(f.params[0]):
+                picks |= set(x.id for x in ast.walk(n.slice) if isinstance(x, ast.Name))
+                for g_ in ast.walk(f.node):
+                    if isinstance(g_, (ast.ListComp, ast.GeneratorExp)) and any(n is x for x in ast.walk(g_.elt)):
+                        picks |= set(x.id for gen in g_.generators for x in ast.walk(gen.iter) if isinstance(x, ast.Name))
+            if isinstance(n, ast.Tuple) and len(n.elts) == 2 and unparse(n.elts[1]).endswith('[1]'):
+                for x in ast.walk(n.elts[0]):
+                    if isinstance(x, ast.Subscript) and isinstance(x.value, ast.Name) and unparse(x.slice).endswith('[0]'):
+                        renames.add(x.value.id)
+        both = (picks & renames) - set(f.params)
+        if both:
+            verdict, why = False, '`%s` both selects the right-hand sides and renames the variables: the variables need ' \
+                                  'the inverse permutation' % sorted(both)[0]
+    if verdict is None:
+        # positive evidence: two maps built in one loop with the same orientation (A[x] = y and B[x] = y), or the
+        # same map used for the right-hand sides and for the variables
+        for a_ in stores:
+            for b_ in stores:
+                if a_ is not b_ and a_.loops == b_.loops and a_.ast.targets[0].value.id != b_.ast.targets[0].value.id \
+                        and unparse(a_.ast.targets[0].slice) == unparse(b_.ast.targets[0].slice) \
+                        and unparse(a_.ast.value) == unparse(b_.ast.value):
+                    verdict, why = False, 'both maps go in the same direction: variables are renamed with the permutation, not its inverse'
+        if ok and not use_ok and pair is not None:
+            verdict = False
     obs.append(Ob('R-INVERSEMAP', f.fq, 'right-hand sides are permuted with a map and the linearization variables '
-                  'renamed with its inverse', ok and use_ok, why, construct='inversemap', line=f.node.lineno))
+                  'renamed with its inverse', verdict, why, construct='inversemap', line=f.node.lineno))
     return obs, {}
 
 
